@@ -44,6 +44,9 @@ CLAIMED = {
  "C15": dict(cat="exploration", technique="three independent observations (rewrite count in file bytes, -v log order, strace open/write event log) vs a transcription of the statement",
    text="Random directory trees with excluded directory names at any depth, look-alike names, symlinks, non-Go files, and argument lists with overlaps/duplicates/absolute/'...' forms; every .go file carries one site of a non-idempotent patch so the number of times it was processed is readable from its bytes; the -v log gives the processed set and order; every 5th run a strace log gives exactly-once read/modify per model file and sorted order.",
    note="cwd never has an excluded name; symlinks named explicitly are not processed (the statement: 'no symlinks').", ref="5/C15"),
+ "C16": dict(cat="fault_enumeration", technique="fault injection at the process boundary (RLIMIT_FSIZE sweep, strace syscall error and SIGKILL injection, input-borne failures) + post-run file classifier and stderr/exit oracle",
+   text="Every fault point of the enumeration (write cut after k bytes for a sweep of k; each write-path syscall failing with EIO/ENOSPC/EACCES/EDQUOT at its n-th call; the process killed at those calls; per-file and per-patch input failures at every position of a multi-file run) is executed against the real CLI on scratch copies; afterwards every *.go file must hold its original or its complete patched bytes (baseline from a fault-free run), exit status and stderr must report path and cause, and other files' results must be unaffected.",
+   note="Whether a fault fired is read from the strace log (INJECTED marker / kill); GOMAXPROCS=1 so that strace's per-thread counter is meaningful. A fault that hits gopatch's own write to stderr makes the diagnostic unobservable and is only classified for file integrity.", ref="5/C16"),
 #NEXT
 }
 
